@@ -17,16 +17,27 @@ from vf import common, ir2smt
 from vf.gen import shapes as G
 from vf.symex import core, instr
 from vf.symex.core import SInt, SBool, Engine, PathAbort
-from vf.checks import c05, c13
+from vf.checks import c05, c13, c16
 
 PROP = 'C15'
 CHUNK = 12
 
 
 def worker_init():
-    c13.worker_init()
+    c16.worker_init()
     global X, H, M
     X, H, M = c05.X, c05.H, c05.M
+
+
+def w2(s):
+    return s[2] if s[0] == 'smem' else (w2(s[2][0]) if s[0] == 'op' else (w2(s[2]) if s[0] == 'cond' else G.width(s)))
+
+
+def consts2(shape):
+    out = {}
+    for k, size in c16.ints2(shape, []):
+        out[k] = SInt.var('k%d' % k, 0, (1 << size) - 1)
+    return out
 
 
 # -------------------------------------------------------------------------------------------------
@@ -198,6 +209,9 @@ def sub_shapes(s, acc=None, path=()):
     k = s[0]
     if k == 'mem':
         sub_shapes(s[1], acc, path + (1,))
+    elif k == 'smem':
+        sub_shapes(s[1], acc, path + (1,))
+        sub_shapes(s[3], acc, path + (3,))
     elif k == 'op':
         for i, x in enumerate(s[2]):
             sub_shapes(x, acc, path + (2, i))
@@ -249,18 +263,28 @@ def value_shapes(tier, seed):
             rnd.shuffle(sh)
             sh = sh[:260 if n == 32 else 120]
         out += sh
+        if n >= 8:
+            p, q, a = ('id', 'p', 32), ('id', 'q', 32), ('id', 'a', n)
+            ds, sel = ('id', 'ds', 16), ('slice', ('id', 'sel', 32), 0, 16)
+            sm1 = ('smem', p, n, ds)
+            sm2 = ('smem', ('op', '+', (p, ('int', 0, 32))), n, sel)
+            sm3 = ('smem', ('mem', q, 32), n, ds)
+            out += [sm1, sm2, sm3, ('op', '+', (sm1, a)), ('op', '^', (a, sm2, sm1)), ('cond', sm1, a, sm2), ('op', '-', (sm3,)),
+                    ('mem', ('op', '+', (sm1 if n == 32 else p, q)), n)]
+            if n >= 16:
+                out += [('slice', sm1, 0, n // 2), ('compose', ((('slice', sm2, 0, n // 2), 0, n // 2), (('slice', a, n // 2, n), n // 2, n)))]
     return out
 
 
 def value_job(shape):
-    eng = Engine(width=c05.shape_width(shape), timeout_ms=20000, max_paths=400, max_seconds=120)
-    name = G.show(shape)
-    n = G.width(shape)
+    eng = Engine(width=max(72, 2 * max([w2(shape)] + [sz for _, sz in c16.ints2(shape, [])]) + 8), timeout_ms=20000, max_paths=400, max_seconds=120)
+    name = c16.show2(shape)
+    n = w2(shape)
     subs = sub_shapes(shape)
 
     def fn(eng):
-        consts = c05.sym_consts(shape)
-        e = G.build(shape, consts, X, M)
+        consts = consts2(shape)
+        e = c16.build2(shape, consts)
         c = ir2smt.Ctx(strict=False)
         t = ir2smt.tr(e, c)
         # canonize
@@ -285,8 +309,8 @@ def value_job(shape):
             if s in seen:
                 continue
             seen.add(s)
-            w = G.width(s)
-            sub_e = G.build(s, consts, X, M)
+            w = w2(s)
+            sub_e = c16.build2(s, consts)
             ts = ir2smt.tr(sub_e, c)
             for rk in ('id', 'op'):
                 if rk == 'id':
@@ -297,7 +321,7 @@ def value_job(shape):
                     r_e = X.ExprOp('+', X.ExprId('zz', w), X.ExprInt({1: M.uint1, 8: M.uint8, 16: M.uint16, 32: M.uint32, 64: M.uint64}[w](1)))
                 tr_ = ir2smt.tr(r_e, c)
                 try:
-                    e2 = G.build(shape, consts, X, M).replace_expr({sub_e: r_e})
+                    e2 = c16.build2(shape, consts).replace_expr({sub_e: r_e})
                 except PathAbort:
                     raise
                 except Exception as ex:
@@ -312,7 +336,7 @@ def value_job(shape):
                     if eng.prove(z3.Not(f)):
                         return False
                     raise PathAbort('equality of sub-expressions undecided on this path')
-                want = ir2smt.tr(ref_replace(G.build(shape, consts, X, M), sub_e, r_e, decide), c, want=n)
+                want = ir2smt.tr(ref_replace(c16.build2(shape, consts), sub_e, r_e, decide), c, want=n)
                 if t2.size() != want.size():
                     return ('CEX', 'replace-width', 'result has width %d' % t2.size(), eng.model_inputs(eng.witness()), (s, rk))
                 st, m = eng.find(t2 != want)
@@ -391,7 +415,7 @@ def run_job(job):
             cls = 'w%d' % it[1]
         else:
             eng, rs, name, data = value_job(it[1])
-            cls = c05.rule_class(it[1]) + ':w%d' % G.width(it[1])
+            cls = c16.skel(it[1]) + ':w%d' % w2(it[1])
         res['paths'] += eng.stats['paths']
         res['queries'] += eng.stats['queries']
         res['solver_s'] += eng.stats['solver_s']
@@ -429,7 +453,8 @@ import miasmx.tools.modint as M
 from vf import ir2smt
 from vf.gen import shapes as G
 from vf.checks import c15, c13, c05
-c15.X = c13.X = c05.X = X; c15.M = c05.M = M
+from vf.checks import c16
+c15.X = c13.X = c05.X = c16.X = X; c15.M = c05.M = c16.M = M
 D = %(data)r
 V = D['vals']; bad = False; what = D['what']
 def mkF(prefix):
@@ -470,8 +495,8 @@ elif D['kind'] == 'eqval':
         if bad: print('values:', s.model().eval(te), s.model().eval(tf))
 else:
     consts = {int(k[1:]): v for k, v in V.items() if k[0] == 'k'}
-    for k, size in G.ints_of(D['shape']): consts.setdefault(k, 0)
-    e = G.build(D['shape'], consts, X, M); c = ir2smt.Ctx(strict=False); t = ir2smt.tr(e, c); n = G.width(D['shape'])
+    for k, size in c16.ints2(D['shape'], []): consts.setdefault(k, 0)
+    e = c16.build2(D['shape'], consts); c = ir2smt.Ctx(strict=False); t = ir2smt.tr(e, c); n = c15.w2(D['shape'])
     s = z3.Solver()
     try:
         if what.startswith('canon'):
@@ -480,15 +505,15 @@ else:
             if tc.size() != t.size(): bad = True
             else: s.add(tc != t); bad = s.check() == z3.sat
         else:
-            sshape, rk = D['extra']; w = G.width(sshape)
-            sub_e = G.build(sshape, consts, X, M); ts = ir2smt.tr(sub_e, c)
+            sshape, rk = D['extra']; w = c15.w2(sshape)
+            sub_e = c16.build2(sshape, consts); ts = ir2smt.tr(sub_e, c)
             r_e = X.ExprId('zz', w) if rk == 'id' else X.ExprOp('+', X.ExprId('zz', w), X.ExprInt({1: M.uint1, 8: M.uint8, 16: M.uint16, 32: M.uint32, 64: M.uint64}[w](1)))
             tr_ = ir2smt.tr(r_e, c)
-            e2 = G.build(D['shape'], consts, X, M).replace_expr({sub_e: r_e})
+            e2 = c16.build2(D['shape'], consts).replace_expr({sub_e: r_e})
             print(e, '.replace_expr({%%s: %%s}) =' %% (sub_e, r_e), e2)
             try:
                 t2 = ir2smt.tr(e2, c, want=n)
-                want = ir2smt.tr(c15.ref_replace(G.build(D['shape'], consts, X, M), sub_e, r_e, lambda f: z3.is_true(z3.simplify(f))), c, want=n)
+                want = ir2smt.tr(c15.ref_replace(c16.build2(D['shape'], consts), sub_e, r_e, lambda f: z3.is_true(z3.simplify(f))), c, want=n)
                 if t2.size() != want.size(): bad = True
                 else: s.add(t2 != want); bad = s.check() == z3.sat
             except (ir2smt.IllTyped, ir2smt.Untranslatable) as ex:
